@@ -445,6 +445,10 @@ func TestC19(t *testing.T) {
 	rec := NewRecorder("C19", "TestC19")
 	defer rec.Flush(t)
 	run := func(cc CloneCase, fatalf func(string, ...interface{})) {
+		if msg, ok := rec.Tripped(); ok {
+			fatalf("%s", msg)
+			return
+		}
 		cb, _ := json.Marshal(cc)
 		fmt.Printf("C19CASE %s %s\n", time.Now().Format("15:04:05"), cb)
 		f, trace, labels, err := runCloneCase(cc)
